@@ -157,6 +157,7 @@ namespace
         long tok = 0;
         bool ref = false;
         bool twice = false; // the dispatcher object is kept and invoked a second time (stateful rvalue functor)
+        bool owning = false; // a state-owning functor passed as a non-const lvalue and dispatched twice
     };
 
     // family templates: feature sets closed under the extension chain
@@ -491,6 +492,7 @@ namespace
                     op.tok = (long)rng.range(0, 1000000);
                     op.ref = rng.coin();
                     op.twice = !op.ref && rng.chance(1, 3);
+                    op.owning = !op.ref && !op.twice && rng.chance(1, 3);
                 }
                 else
                     op = gen_boot(rng, enabled_faults, unrelated_mode, raw_pct);
@@ -642,7 +644,11 @@ namespace
                     io2.lv_in = op.lv + 11;
                     io2.cv_in = op.cv - 5;
                     io2.tok_in = op.tok ^ 0x55;
-                    if (op.twice)
+                    int payload_left = 3;
+                    long payload_sum = 0;
+                    if (op.owning)
+                        payload_left = le.owning(io, io2, &payload_sum);
+                    else if (op.twice)
                         le.twice(io, io2);
                     else
                         (op.ref ? le.ref : le.val)(io);
@@ -683,9 +689,11 @@ namespace
                         if (io.ret_got != io.ret_expected || (op.ref && !io.ret_is_slot))
                             out.violate("C15/dispatch-return", sim::fmt("returned %ld, functor returned %ld, reference identity %d", io.ret_got, io.ret_expected, (int)io.ret_is_slot));
                     }
-                    if (op.twice)
+                    if (op.owning && payload_left != 3)
+                        out.violate("C15/dispatch-functor-moved-from", sim::fmt("dispatch(f) with a non-const lvalue functor emptied the caller's object (%d of 3 payload elements left)", payload_left));
+                    if (op.twice || op.owning)
                     {
-                        // second invocation of the same dispatcher object: again exactly once, same architecture, its own arguments and result
+                        // second invocation of the same dispatcher object / second dispatch of the same lvalue functor: again exactly once, same architecture, its own arguments and result
                         ++cl_disp_twice;
                         if (io2.calls != 1)
                             out.violate("C15/dispatch-call-count", sim::fmt("second invocation of a kept dispatcher: functor invoked %d times (list #%u %s)", io2.calls, (unsigned)(op.list % lists.size()), ln));
@@ -770,7 +778,7 @@ namespace
                     Value names = Value::array();
                     for (int i = 0; i < lists[li].n; ++i)
                         names.push(SPEC[lists[li].ids[i]].name);
-                    o.set("names", names).set("lv", op.lv).set("cv", op.cv).set("tok", op.tok).set("ret", op.ref ? "ref" : op.twice ? "value,invoked_twice" : "value");
+                    o.set("names", names).set("lv", op.lv).set("cv", op.cv).set("tok", op.tok).set("ret", op.ref ? "ref" : op.twice ? "value,invoked_twice" : op.owning ? "value,owning_lvalue_functor_dispatched_twice" : "value");
                 }
                 arr.push(o);
             }
@@ -825,6 +833,7 @@ namespace
                     op.tok = (long)o.at("tok").as_i64();
                     op.ref = o.get_str("ret", "value") == "ref";
                     op.twice = o.get_str("ret", "value") == "value,invoked_twice";
+                    op.owning = o.get_str("ret", "value") == "value,owning_lvalue_functor_dispatched_twice";
                 }
                 plan.push_back(op);
             }
@@ -927,10 +936,10 @@ namespace
                         q[i] = o2;
                         out.push_back(q);
                     };
-                    if (op.twice)
+                    if (op.twice || op.owning)
                     {
                         Op o2 = op;
-                        o2.twice = false;
+                        o2.twice = o2.owning = false;
                         push_op(o2);
                     }
                     if (op.lv != 1)
